@@ -43,6 +43,21 @@ def parseShares {p : Nat} [NeZero p] (s : String) : Option (List (Nat × List (F
       some (id, v)
     | _ => none
 
+/-- `id:s,s/b,b;id:s/b` -/
+def parsePShares {p : Nat} [NeZero p] (s : String) : Option (List (Nat × List (Fp p) × List (Fp p))) :=
+  if s == "-" || s == "" then some [] else
+  (s.splitOn ";").mapM fun part =>
+    match part.splitOn ":" with
+    | [ids, rest] =>
+      match rest.splitOn "/" with
+      | [ss, bs] => do
+        let id ← ids.toNat?
+        let sv ← parseScalars ss
+        let bv ← parseScalars bs
+        some (id, sv, bv)
+      | _ => none
+    | _ => none
+
 def renderShares {p : Nat} (xs : List (Nat × List (Fp p))) : String :=
   ";".intercalate (xs.map fun (id, v) => toString id ++ ":" ++ fpHexList v)
 
@@ -107,7 +122,7 @@ def handle (op : String) (args : List String) (rhs : String) : Verdict :=
         else spec ("feldman-verify-" ++ kind) (acc model) rhs
       | _, _, _ => .unsupported "args"
   | "fnewvv", [cn, cols, ms, ls, vs] =>
-    parseCtx cn cols ms ls fun n _ x =>
+    parseCtx cn cols ms ls fun _ _ x =>
       match parseList? x.C vs with
       | some V => spec "vv-length" (if vvLenOk x.M V then "ok" else "reject") rhs
       | none => .unsupported "args"
@@ -165,6 +180,75 @@ def handle (op : String) (args : List String) (rhs : String) : Verdict :=
             toString h ++ ":" ++ renderPts x.C (liftedShareOf x.M x.labels V h)
           spec "shard" ("ok:" ++ render x.C (liftedSecret x.M V) ++ "|" ++ ";".intercalate pks) rhs
       | _, _, _ => .unsupported "args"
+
+  -- ---------------------------------------------------------------- Pedersen
+  | "pdeal", [_kind, cn, cols, ms, ls, hs, rgs, rhs'] =>
+    parseCtx cn cols ms ls fun n _ x =>
+      letI := instAddPt x.C; letI := instZeroPt x.C; letI := instSMulPt x.C n
+      match parse? x.C hs, parseScalars (p := n) rgs, parseScalars (p := n) rhs' with
+      | some H, some rg, some rh =>
+        if rg.length ≠ x.cols || rh.length ≠ x.cols then spec "pdeal-column-length" "reject" rhs else
+        let V : List Pt := pedersenColumn rg rh (gen x.C) H
+        let sh := (holders x.labels).map fun id =>
+          toString id ++ ":" ++ fpHexList (shareOf x.M x.labels rg id) ++ "/" ++ fpHexList (shareOf x.M x.labels rh id)
+        spec "pdeal" (renderPts x.C V ++ "|" ++ ";".intercalate sh) rhs
+      | _, _, _ => .unsupported "args"
+  | "pverify", [kind, cn, cols, ms, ls, hs, vs, ids, ss, bs] =>
+    parseCtx cn cols ms ls fun n _ x =>
+      letI := instAddPt x.C; letI := instZeroPt x.C; letI := instSMulPt x.C n
+      match parse? x.C hs, parseList? x.C vs, ids.toNat?, parseScalars (p := n) ss, parseScalars (p := n) bs with
+      | some H, some V, some id, some s, some b =>
+        spec ("pedersen-verify-" ++ kind) (acc (pedersenVerify x.M x.labels V (gen x.C) H id s b)) rhs
+      | _, _, _, _, _ => .unsupported "args"
+  | "psum", [cn, cols, ms, ls, hs, vss, ids, sss, bss] =>
+    parseCtx cn cols ms ls fun n _ x =>
+      letI := instAddPt x.C; letI := instZeroPt x.C; letI := instSMulPt x.C n
+      match parse? x.C hs, (vss.splitOn ";").mapM (parseList? x.C), ids.toNat?,
+            (sss.splitOn ";").mapM (parseScalars (p := n)), (bss.splitOn ";").mapM (parseScalars (p := n)) with
+      | some H, some (V0 :: Vs), some id, some (s0 :: srest), some (b0 :: brest) =>
+        let Vsum : Option (List Pt) := Vs.foldl (fun a W => a.bind fun v => vvOp v W) (some V0)
+        match Vsum with
+        | none => spec "pvv-op" "reject" rhs
+        | some V =>
+          let s := srest.foldl shareAdd s0
+          let b := brest.foldl shareAdd b0
+          spec "pvv-op-sum" (renderPts x.C V ++ "|" ++ fpHexList s ++ "|" ++ fpHexList b ++ "|" ++
+            acc (pedersenVerify x.M x.labels V (gen x.C) H id s b)) rhs
+      | _, _, _, _, _ => .unsupported "args"
+  | "precver", [_kind, cn, cols, ms, ls, hs, vs, shs] =>
+    parseCtx cn cols ms ls fun n _ x =>
+      letI := instAddPt x.C; letI := instZeroPt x.C; letI := instSMulPt x.C n
+      match parse? x.C hs, parseList? x.C vs, parsePShares (p := n) shs with
+      | some H, some V, some shares =>
+        let ids := shares.map (·.1)
+        if !(shares.all fun (id, s, b) => pedersenVerify x.M x.labels V (gen x.C) H id s b) then
+          spec "precver-verify" "reject" rhs
+        else
+          match assemble x.labels (shares.map fun (id, s, _) => (id, s)) with
+          | none => spec "precver-assemble" "reject" rhs
+          | some lam =>
+            match reconstruct x.M x.labels ids lam with
+            | none => spec "precver-unqualified" "reject" rhs
+            | some sec => spec "precver" ("ok:" ++ sec.toHex) rhs
+      | _, _, _ => .unsupported "args"
+  | "pextract", [cn, cols, ms, ls, hs, vs, ids, s1s, b1s, s2s, b2s] =>
+    parseCtx cn cols ms ls fun n _ x =>
+      letI := instAddPt x.C; letI := instZeroPt x.C; letI := instSMulPt x.C n
+      match parse? x.C hs, parseList? x.C vs, ids.toNat?, parseScalars (p := n) s1s, parseScalars (p := n) b1s,
+            parseScalars (p := n) s2s, parseScalars (p := n) b2s with
+      | some H, some V, some id, some s1, some b1, some s2, some b2 =>
+        let a1 := pedersenVerify x.M x.labels V (gen x.C) H id s1 b1
+        let a2 := pedersenVerify x.M x.labels V (gen x.C) H id s2 b2
+        -- `pedersen_binding_extract_partial`: two different accepted openings give log_G H
+        let extractOk : Bool :=
+          if a1 && a2 && (s1 ≠ s2 || b1 ≠ b2) then
+            match pedersenExtract s1 b1 s2 b2 with
+            | some a => smulFp x.C a (gen x.C) == H
+            | none => false
+          else true
+        if !extractOk then .unsupported "model: extractor does not yield log_G H"
+        else spec "pedersen-openings" (acc a1 ++ "," ++ acc a2) rhs
+      | _, _, _, _, _, _, _ => .unsupported "args"
   | _, _ => .unsupported ("C05 op " ++ op)
 
 end BronVerif.Drive.C05
